@@ -19,7 +19,7 @@ static void gen_matmul_all(Draw &d, Case &c) {
   auto b = gen_values(d, MAXD * MAXD, kmin, kmax, mixed);
   c.v.insert(c.v.end(), a.begin(), a.end());
   c.v.insert(c.v.end(), b.begin(), b.end());
-  c.tags = {mixed ? "mixed-magnitudes" : "one-magnitude", "all-5832-shapes"};
+  c.tags = {mixed ? "mixed-magnitudes" : "one-magnitude"};
   c.nontrivial = true;
 }
 static void check_product(const M &A, const M &B, const char *what) {
@@ -40,9 +40,12 @@ static M block(const M &A, int r, int c) { M B(r, c); for (int i = 0; i < r; i++
 static void pred_matmul_all(const Case &c) {
   Reader rd(c);
   M A = rd.mat(MAXD, MAXD), B = rd.mat(MAXD, MAXD);
+  const bool full = getenv("VERIF_TIER") && std::string(getenv("VERIF_TIER")) == "thorough";
+  tag(full ? "all-5832-shapes" : "1500-shape-grid");
   for (int m = 0; m <= MAXD; m++) for (int k = 0; k <= MAXD; k++) for (int n = 0; n <= MAXD; n++) {
-    // keep the sweep affordable under ASan: every inner dimension with every (m,n) on a coarse+edge grid
-    if (!((m <= 2 || m == 5 || m == MAXD) && (n <= 2 || n == 4 || n == MAXD)) && ((m * 31 + k * 17 + n) % 7 != 0)) continue;
+    // quick tier: every inner dimension with every (m,n) on a coarse+edge grid plus a seventh of the rest (~1500 shapes);
+    // thorough tier: all 18^3 = 5832 shapes
+    if (!full && !((m <= 2 || m == 5 || m == MAXD) && (n <= 2 || n == 4 || n == MAXD)) && ((m * 31 + k * 17 + n) % 7 != 0)) continue;
     check_product(block(A, m, k), block(B, k, n), "MatrixDotProduct");
   }
 }
